@@ -514,25 +514,25 @@ theorem autoReason_spec (o : Outcome) (b r : Bool) :
     (autoReason o b r = Reason.none ↔ (∃ m p, o = Outcome.served m p) ∧ (b = true → r = true)) := by
   cases o <;> cases b <;> cases r <;> simp [autoReason]
 
-/-! ### finding F9: the loop as it is in the code does not satisfy `selectMode_spec` -/
+/-! ### finding F9 (fixed in /repo as 5d202380): the loop as it was does not satisfy `selectMode_spec` -/
 
 def f9A : Mode := { id := 0, baud := 32, bitRate := 200, minSpacing := 50, offset := 0 }
 def f9B : Mode := { id := 1, baud := 32, bitRate := 100, minSpacing := 50, offset := 3 }
 /-- A passes only on its own propagation (offset 0); B passes everywhere -/
 def f9Feas (p : Int × Int) (m : Mode) : Bool := if m.id = 0 then decide (p.2 = 0) else true
 
-/-- with two modes of one baud rate and different offsets the current loop judges A on B's propagation: it
+/-- with two modes of one baud rate and different offsets the old loop judged A on B's propagation: it
 returns B (100G) although A (200G) is feasible on its own propagation; the repaired loop returns A -/
-theorem selectMode_fails_current :
-    selectModeCurrent f9Feas [f9A, f9B] 50 = Outcome.served f9B (32, 3) ∧
+theorem selectMode_fails_old :
+    selectModeOld f9Feas [f9A, f9B] 50 = Outcome.served f9B (32, 3) ∧
     FeasOwn f9Feas f9A ∧ f9A.bitRate > f9B.bitRate ∧
     selectMode f9Feas [f9A, f9B] 50 = Outcome.served f9A (32, 0) := by
   refine ⟨by decide, by unfold FeasOwn; decide, by decide, by decide⟩
 
-/-- conversely the current loop can serve a mode that is NOT feasible on its own propagation (and report the other
+/-- conversely the old loop could serve a mode that is NOT feasible on its own propagation (and report the other
 propagation's figures): here A passes only on B's propagation -/
-theorem selectMode_current_accepts_infeasible :
-    selectModeCurrent (fun p m => if m.id = 0 then decide (p.2 = 3) else false) [f9A, f9B] 50
+theorem selectModeOld_accepts_infeasible :
+    selectModeOld (fun p m => if m.id = 0 then decide (p.2 = 3) else false) [f9A, f9B] 50
       = Outcome.served f9A (32, 3) ∧
     ¬ FeasOwn (fun p m => if m.id = 0 then decide (p.2 = 3) else false) f9A := by
   refine ⟨by decide, by unfold FeasOwn; decide⟩
